@@ -5,6 +5,7 @@ import (
 	"crypto"
 	"encoding/hex"
 	"encoding/json"
+	"math/big"
 	"fmt"
 	"os"
 	"path/filepath"
@@ -204,6 +205,21 @@ func runC11(c *Ctx) {
 			toks = append(toks, tokField(o1))
 		}
 		c.Direct(allEq(toks), "type-2 token depends on the blind", map[string]any{"tokens": toks})
+		// blinds the key cannot use (0, N, N+1, all ones, a multiple of a prime factor): the blind-RSA library refuses them,
+		// and so must the client — never a request built from some other blind
+		for bi, bv := range []*big.Int{big.NewInt(0), rk.N, new(big.Int).Add(rk.N, big.NewInt(1)), new(big.Int).Sub(new(big.Int).Lsh(big.NewInt(1), 2048), big.NewInt(1)), rk.Primes[0], new(big.Int).Lsh(rk.Primes[1], 3)} {
+			b2 := bv.FillBytes(make([]byte, 257))[1:]
+			if bv.BitLen() > 2048 {
+				b2 = bv.Bytes()
+			}
+			if _, _, err := blindrsa.NewVerifier(&rk.PublicKey, crypto.SHA384).FixedBlind(input2, b2, salt); err == nil {
+				continue
+			}
+			args := []string{hx(challenge), hx(nonce), "1", hx(kid2), "-", "-", strconv.Itoa(i % 4), hx(b2), hx(salt)}
+			o := c.Run("c11.t2refuse", args...)
+			c.Count(fmt.Sprintf("t2:unusable-blind%d", bi))
+			c.Direct(o == "err-create", "a blind the key cannot use was not refused", map[string]any{"blind": hx(b2), "impl": o})
+		}
 		// type 5: two blind vectors
 		sk5 := oprfKey(oprf.SuiteRistretto255, keyseed)
 		pk5, _ := sk5.Public().MarshalBinary()
@@ -242,6 +258,9 @@ func runC11(c *Ctx) {
 			o2 := c.Run("c01.t5", args...)
 			c.Count(fmt.Sprintf("t5:blinds%d", bi))
 			c.Direct(o1 == o2 && strings.HasPrefix(o1, "ok "), "type-5 issuance with fixed blinds is not reproducible", map[string]any{"first": o1, "second": o2})
+			wantReq := append(append([]byte{0, 5, kid5[31]}, refEnc(uint64(32*nTok))...), bytes.Join(blindeds, nil)...)
+			c.Direct(strings.Contains(o1, " req="+hxv(wantReq)+" ") || strings.HasSuffix(o1, " req="+hxv(wantReq)) || strings.Contains(o1, "req="+hxv(wantReq)),
+				"type-5 request is not the blinding of each token input with its own supplied blind", map[string]any{"blinds": hxList(blinds), "impl": o1, "expected_request": hx(wantReq)})
 			toks = append(toks, tokField(o1))
 		}
 		c.Direct(allEq(toks), "type-5 tokens depend on the blinds", map[string]any{"tokens": toks})
@@ -416,6 +435,8 @@ func init() {
 		}
 		return "same"
 	}
+	// c11.t2refuse: c01.t2 with a blind that the blind-RSA library refuses (oracle: it did, in the stream)
+	replayers["c11.t2refuse"] = func(c *Ctx, a []string) string { return replayers["c01.t2"](c, a) }
 	// c11.par <k> <n>: the same issuances run from concurrent goroutines (shared token keys, per-call arguments)
 	replayers["c11.par"] = func(c *Ctx, a []string) string {
 		n, _ := strconv.Atoi(a[1])
